@@ -1,11 +1,13 @@
 import TbbVerif.Core.Proto
 import TbbVerif.Model.C11
+import TbbVerif.Model.C11SegDrv
 
 open TbbVerif
 
 def drivers : List (String × Proto.Driver) := [
   ("c11", C11.driver),
-  ("c11st", C11.driverSt)
+  ("c11st", C11.driverSt),
+  ("c11seg", C11.Seg.driverSeg)
 ]
 
 def main (args : List String) : IO UInt32 := Proto.mainOf drivers args
